@@ -224,6 +224,40 @@ def run(res, ctx):
                     if d is not None:
                         reqs.append(C.scan_request(raw))
                         expect.append(raw)
+        # ---- (2b) the line split itself (Bandit/Lines.lean `uniLines`, theorems Props.C19.lines_*): the driver's lines of a decoded text against the lines a
+        #      text-mode file yields for it, over texts that mix \n, \r\n, lone \r (also doubled, at the very start / end) with the characters str.splitlines()
+        #      breaks at and Python source does not; and whole scans of comment-only programs with mixed line ends and a bidi character on a random line
+        if d is not None:
+            import io as _io
+            alpha = ["a", "b ", "#", "\n", "\n", "\r\n", "\r\n", "\r", "\r", "\x0c", "\x0b", "\x1c", "\x1d", "\x1e", "\x85", "\u2028", "\u2029", "\u202e", "\u2066", "é", "\ufeff", "\t"]
+            texts = ["", "\n", "\r", "\r\n", "\r\r\n", "\n\r", "a\r", "a\r\nb\rc\nd", "\r\n\r\n", "a\n\n\nb", "x\x0cy\u2028z\n"]
+            for _ in range(400 if thorough else 120):
+                texts.append("".join(rng.choice(alpha) for _ in range(rng.randint(1, 14))))
+            outs = d.ask_many([{"op": "unilines", "text": t} for t in texts])
+            for t, m in zip(texts, outs):
+                want = _io.TextIOWrapper(_io.BytesIO(t.encode("utf-8")), encoding="utf-8").readlines()
+                res.case(("unilines", t), True)
+                res.count("unilines-texts")
+                if isinstance(m, dict) and "error" in m:
+                    res.break_("driver-error", m["error"])
+                elif m != want:
+                    res.break_("correspondence", {"what": "lines of a decoded text: model uniLines vs io.TextIOWrapper(newline=None).readlines()", "text": t, "model": m, "python": want})
+            for k in range(60 if thorough else 20):
+                nlines = rng.randint(1, 7)
+                hit = rng.randrange(nlines)
+                ch = rng.choice(BIDI)
+                parts = []
+                for i in range(nlines):
+                    body = rng.choice(["# note", "#", "# a\x0cb", "# \u2028 x", ""]) if i != hit else rng.choice(["# x %s y" % ch, "#%s" % ch, "# \x0c%s" % ch])
+                    parts.append(body + rng.choice(["\n", "\r\n", "\r", "\n"]))
+                text = "".join(parts)
+                if rng.random() < 0.3:
+                    text = text.rstrip("\r\n")
+                raw = (codecs.BOM_UTF8 if rng.random() < 0.25 else b"") + text.encode("utf-8")
+                res.case(("mixed-line-ends", raw), True)
+                res.count("mixed-line-end-programs")
+                reqs.append(C.scan_request(raw))
+                expect.append(raw)
         if d is not None and reqs:
             model = d.ask_many(reqs)
             real = C.batch_real_scan(scratch, expect)
